@@ -91,6 +91,13 @@ for _k in (CUSTOM_FRONT, CUSTOM_MID, SKIP_SUB, FAIL_SUB, XFAIL_SUB):
     pg.FLATTEN[_k] = (_k,)
 
 
+def _do_insert_handlers(case, ctx, site, action):
+    ctx.extra["insert_handlers"]()
+
+
+pg.ACTION_HANDLERS["insert_handlers"] = _do_insert_handlers
+
+
 def execute(config, flavour, chooser):
     old = pg.perform
     pg.perform = perform
@@ -107,9 +114,16 @@ def execute(config, flavour, chooser):
             handler_calls.append("handler:mid")
             result.addSkip(c, details={})
 
-        # user handlers: one inserted at the front, one just before the catch-all
-        case.exception_handlers.insert(0, (CustomFront, h_front))
-        case.exception_handlers.insert(len(case.exception_handlers) - 1, (CustomMid, h_mid))
+        # user handlers: one inserted at the front, one just before the catch-all -
+        # either before run() or by the running test itself (from setUp, before the up-call)
+        def insert():
+            case.exception_handlers.insert(0, (CustomFront, h_front))
+            case.exception_handlers.insert(len(case.exception_handlers) - 1, (CustomMid, h_mid))
+
+        if config.actions.get("setUp.pre") and ("insert_handlers",) in config.actions["setUp.pre"]:
+            ctx.extra["insert_handlers"] = insert
+        else:
+            insert()
         result, log = c01.make_result(flavour)
         try:
             case.run(result)
@@ -167,6 +181,8 @@ def shards(tier):
             for em in (False, True):
                 for ff in (False, True):
                     out.append((flavour, nc, em, ff, None))
+        out.append((flavour, 1, False, False, "late_handlers"))
+        out.append((flavour, 2, True, False, "late_handlers"))
         out.append((flavour, 1, False, False, "xfail_decorator"))
         out.append((flavour, 1, False, False, "skip_method"))
     return out
@@ -174,7 +190,12 @@ def shards(tier):
 
 def config_of(shard):
     flavour, nc, em, ff, dec = shard
-    return pg.Config(actions=c01.cleanup_actions(nc), kinds=KINDS, expect_mismatch=em, force_failure=ff, decorator=dec)
+    actions = c01.cleanup_actions(nc)
+    if dec == "late_handlers":
+        actions = dict(actions)
+        actions["setUp.pre"] = [("insert_handlers",)]
+        dec = None
+    return pg.Config(actions=actions, kinds=KINDS, expect_mismatch=em, force_failure=ff, decorator=dec)
 
 
 def fingerprint(clause, eff):
